@@ -1072,7 +1072,8 @@ fn run_case_b_inner(case: &CaseB, o: &OptsB) -> RunB {
     // 1. arena + pre-history on the main thread (Engine A, unscheduled)
     let mut cfg = case.cfg.clone();
     cfg.flavor = crate::case::Fl::Sync;
-    cfg.backend = crate::case::Backend::Vec;
+    // any backend: code paths that look at the kind of backing store (file-backed, memory map) run under the scheduler
+    // too; the file of a file-backed arena is unlinked as soon as the pre-history is done (the mapping stays)
     let mut w = match World::<Arena>::new(&cfg, Mode::default()) {
         Ok(Some(w)) => w,
         Ok(None) => return out,
